@@ -30,6 +30,7 @@ type c14Case struct {
 	TTL       string     `json:"ttl"` // "0", "40ms", "1h"
 	History   []c14Event `json:"history"`
 	Parallel  int        `json:"concurrent_copies"`
+	Domain    string     `json:"world_domain,omitempty"` // "" = inD01; "inputs" = string fields taking filter: [FilterIn!]
 }
 
 type countingPlanner struct {
@@ -118,7 +119,62 @@ func variants(r *Rig, op gen.GenOp, rng interface{ Intn(int) int }) []gen.GenOp 
 			}
 		}
 	}
+	if v, ok := otherLiteral(q); ok {
+		o := gen.GenOp{Query: v, Variables: op.Variables, OperationName: op.OperationName, Kind: "other_literal", Of: q}
+		if selectedOp(r.Merged, o) != nil {
+			out = append(out, o)
+		}
+	}
 	return out
+}
+
+func domainOr(d string) string {
+	if d == "" {
+		return "inD01"
+	}
+	return d
+}
+
+var litStrRe = regexp.MustCompile(`"x\d"`)
+var litIntRe = regexp.MustCompile(`\b\d\b`)
+
+// otherLiteral changes one scalar inside the first list / input-object literal given to a `filter:` argument
+func otherLiteral(q string) (string, bool) {
+	i := strings.Index(q, "filter: [")
+	if i < 0 {
+		return "", false
+	}
+	start := i + len("filter: ")
+	depth, end := 0, -1
+	for j := start; j < len(q); j++ {
+		if q[j] == '[' || q[j] == '{' {
+			depth++
+		}
+		if q[j] == ']' || q[j] == '}' {
+			depth--
+			if depth == 0 {
+				end = j + 1
+				break
+			}
+		}
+	}
+	if end < 0 {
+		return "", false
+	}
+	lit := q[start:end]
+	if m := litStrRe.FindStringIndex(lit); m != nil {
+		return q[:start] + lit[:m[0]] + `"zz"` + lit[m[1]:] + q[end:], true
+	}
+	if m := litIntRe.FindStringIndex(lit); m != nil {
+		return q[:start] + lit[:m[0]] + "7" + lit[m[1]:] + q[end:], true
+	}
+	if strings.Contains(lit, "true") {
+		return q[:start] + strings.Replace(lit, "true", "false", 1) + q[end:], true
+	}
+	if strings.Contains(lit, "false") {
+		return q[:start] + strings.Replace(lit, "false", "true", 1) + q[end:], true
+	}
+	return "", false
 }
 
 var rootSelRe = regexp.MustCompile(`q\d_\d(\([^)]*\))? \{ `)
@@ -151,6 +207,11 @@ func driveC14(seed int64, tier, out, replay string) {
 			}
 			cases = append(cases, c)
 		}
+		// worlds whose fields take list / input-object literals (own stream: the histories above stay as they were)
+		irng := hx.NewRand(seed + 7777)
+		for i := 0; i < nHist/4; i++ {
+			cases = append(cases, c14Case{WorldSeed: irng.Int63(), TTL: []string{"1h", "40ms", "1h", "0"}[i%4], Domain: "inputs"})
+		}
 	}
 	var coq []string
 	distinct := map[string]bool{}
@@ -159,7 +220,7 @@ func driveC14(seed int64, tier, out, replay string) {
 		if c.Hand {
 			w = handWorld()
 		} else {
-			w = worldFor(c.WorldSeed, "inD01")
+			w = worldFor(c.WorldSeed, domainOr(c.Domain))
 		}
 		ttl, _ := time.ParseDuration(c.TTL)
 		if c.TTL == "0" {
@@ -180,8 +241,12 @@ func driveC14(seed int64, tier, out, replay string) {
 			} else {
 				orng := hx.NewRand(c.WorldSeed + 1)
 				var plainOps []gen.GenOp
-				for k := 0; k < 4; k++ {
-					op := gen.Operation(orng, plain.Merged, opOptionsFor("inD01", w))
+				nOps := 4
+				if c.Domain == "inputs" {
+					nOps = 10
+				}
+				for k := 0; k < nOps; k++ {
+					op := gen.Operation(orng, plain.Merged, opOptionsFor(domainOr(c.Domain), w))
 					pool = append(pool, variants(plain, op, orng)...)
 					if strings.HasPrefix(op.Query, "query") && len(op.Variables) == 0 && !strings.Contains(op.Query, "fragment") {
 						plainOps = append(plainOps, op)
@@ -208,6 +273,10 @@ func driveC14(seed int64, tier, out, replay string) {
 			var pairs [][2]gen.GenOp
 			for _, a := range pool {
 				for _, b := range pool {
+					// the same text up to one value inside a list / input-object literal
+					if b.Kind == "other_literal" && b.Of == a.Query && a.Kind != "other_literal" {
+						pairs = append(pairs, [2]gen.GenOp{a, b})
+					}
 					if b.Kind == "explicit_id" && strings.Replace(b.Query, "id ", "", 1) == a.Query {
 						pairs = append(pairs, [2]gen.GenOp{a, b})
 					}
@@ -334,7 +403,7 @@ func driveC14(seed int64, tier, out, replay string) {
 	}
 	obs.Evaluations = len(coq)
 	obs.DistinctNontrivial = len(distinct)
-	obs.Rule = "twin gateways (plain / caching planner) over histories of 6-15 requests drawn from a pool of generated operations and their near-collisions (same selection under another operation type or name, other variable values, another body for the same fragment name; on the hand-written federation query{x} vs mutation{x}), TTL 0 / 40 ms with 100 ms gaps straddling expiry / 1 h, every sixth history with 8 concurrent copies of each request; cache misses observed through a counting planner behind the real CachedPlanner; non-trivial = at least 2 distinct cache keys"
+	obs.Rule = "twin gateways (plain / caching planner) over histories of 6-15 requests drawn from a pool of generated operations and their near-collisions (same selection under another operation type or name, other variable values, another body for the same fragment name; in worlds of the `inputs` domain the same text up to one scalar inside a list / input-object literal argument; on the hand-written federation query{x} vs mutation{x}), TTL 0 / 40 ms with 100 ms gaps straddling expiry / 1 h, every sixth history with 8 concurrent copies of each request; cache misses observed through a counting planner behind the real CachedPlanner; non-trivial = at least 2 distinct cache keys"
 	hx.WriteCases(out, "From Pebbles Require Import Cache.Model Corr.C14.\nFrom Coq Require Import List. Import ListNotations.\n", "c14case", coq, "mismatches")
 	obs.Write(out)
 }
